@@ -21,6 +21,7 @@ from pyvc.api import *
 from pyvc import builtins_ as B
 from contracts.lib import *
 import z3
+import os as _os
 
 F = "ioflo/aio/http/httping.py"
 BA = List(INT)            # bytearray
@@ -349,6 +350,8 @@ def _sub(E, lv, a, b, kind=None):
     """new list lv[a:b]; its array is a NAMED array with the defining axiom (trigger: a read of the new array), so
     that quantified facts about the new list chain to the facts about the source by e-matching"""
     src = E.larrs(lv)[0]
+    if _os.environ.get("C33_SUB") == "lambda":
+        return E.new_list(lv.et, b - a, [z3.Lambda([B.KLAM], z3.Select(src, B.KLAM + a))], kind=kind or lv.kind)
     arr = E.fresh("sub", src.sort())
     k = E.fresh("ksub", z3.IntSort())
     E.assume(z3.ForAll([k], z3.Select(arr, k) == z3.simplify(z3.Select(src, k + a)), patterns=[z3.Select(arr, k)]))
@@ -361,10 +364,15 @@ def _first_sep(E, lv, sep):
     q = E.fresh("qs", z3.IntSort())
     occ = lambda t: _occ(E, lv, t, bytes(sep), None)
     arr = E.larrs(lv)[0]
-    if not E.branch(z3.Exists([q], occ(q))):
+    # demonic two-way choice instead of a decided branch: deciding `exists q. occ(q)` under the quantified facts of
+    # the path costs a solver time-out per branch; an impossible side only yields a path with a contradictory
+    # condition (dropped at the next decided branch, or caught by the canary)
+    if E.choose(2) == 0:
         E.assume(_all(q, z3.Not(occ(q)), arr))
         return None
-    return _first(E, "sep", z3.IntVal(0), n, occ, arr)
+    p = _first(E, "sep", z3.IntVal(0), n, occ, arr)
+    E.assume(p < n)
+    return p
 
 
 @external("list.partition")
@@ -631,7 +639,14 @@ LEADER_RAISES = dict(LINE_RAISES)
 LEADER_RAISES["ValueError"] = ["%s and pstar > 0 and cpos == pstar" % HAS]       # malformed: no colon at all (C32)
 LEADER_RAISES["HTTPException"] = ["hdr_size(headers) > MAX_HEADERS"]
 
-contract(F, "parseLeader", "C29", tags=("step2", "logic=AUFLIA"),
+def _cut_line(E):
+    """proof cut after `line = raw[:index]`: the code's index is the ghost position pstar and its eol is the longest
+    mark there - proved here (small context), then available to the obligations that follow the header parsing"""
+    g = E.spec_eval("index == pstar and len(eol) == eol_len_at(raw0, pstar, len(raw0), eols)")
+    E.oblige("cut", g, "line selection: index == pstar and len(eol) == eol_len_at(raw0, pstar, len(raw0), eols)")
+
+
+contract(F, "parseLeader", "C29", tags=("step2", "logic=AUFLIA"), ghost={"after": {"line = raw[:index]": _cut_line}},
          params=dict(raw=BA, headers=Ref("lodict")), setup=_seq(_line_ghosts(), _bytearray_kind("raw")),
          assumes=[LOG_DISTINCT],
          modifies=["raw[*]", "headers.log_k[*]", "headers.log_v[*]", "headers.n"],
